@@ -73,7 +73,7 @@ def leaf(cls, mod, cond):
     contract(mod + f'{cls}.{DOE}', 'C12', types=TY, returns=RET, modifies=[],
              ensures={'own_name_if_its_kind': f'implies({cond}, c12c_keys_are(result, c12_single(self.name)))',
                       'nothing_otherwise': f'implies(not ({cond}), c12c_keys_are(result, c12_empty()))',
-                      'maps_to_itself': f'implies({cond}, result[self.name] is self)'},
+                      'maps_to_itself': f'implies({cond}, c12c_maps_to(result, self.name, self))'},
              replay=REPLAY_NAMES)
 
 
